@@ -227,9 +227,9 @@ def _impl_header(name):
 
 
 class SourceFile:
-    def __init__(self, path, relname):
+    def __init__(self, path, relname, text=None):
         self.path, self.rel = path, relname
-        self.src = open(path, encoding="utf-8").read()
+        self.src = open(path, encoding="utf-8").read() if text is None else text
         self.toks = code_tokens(self.src)
         self.items = _items_in(self.src, self.toks, 0, len(self.toks), relname)
 
